@@ -16,6 +16,49 @@ def repertoire(repo, font):
     return _rep[font]
 
 
+_pseudo = {}
+
+
+def pseudos(repo, font):
+    """code points the font handles through the pseudo-glyph map of its first Silf subtable (they need not be in the cmap)"""
+    if font in _pseudo:
+        return _pseudo[font]
+    out = []
+    try:
+        d = open(os.path.join(repo, 'tests/fonts', font), 'rb').read()
+        n = struct.unpack('>H', d[4:6])[0]
+        so = None
+        for i in range(n):
+            tag, _, off, ln = struct.unpack('>4sIII', d[12 + 16 * i:28 + 16 * i])
+            if tag == b'Silf':
+                so = off
+        if so is not None:
+            ver = struct.unpack('>I', d[so:so + 4])[0]
+            p = so + (8 if ver >= 0x30000 else 4)
+            p += 4                                              # numSub, reserved
+            sub = so + struct.unpack('>I', d[p:p + 4])[0]
+            q = sub + (8 if ver >= 0x30000 else 0)
+            q += 6                                              # maxGlyph, extra ascent / descent
+            npass = d[q]
+            q += 13                                             # numPasses .. aPassBits
+            nj = d[q]; q += 1 + 8 * nj
+            q += 2 + 1 + 1 + 1 + 1 + 3                          # aLig, aUser, iMaxComp, dir, aCollision, reserved
+            ncf = d[q]; q += 1 + 2 * ncf
+            q += 1                                              # reserved
+            nst = d[q]; q += 1 + 4 * nst
+            q += 2                                              # lbGID
+            q += 4 * (npass + 1)
+            npseudo = struct.unpack('>H', d[q:q + 2])[0]; q += 8
+            for k in range(min(npseudo, 4000)):
+                uid, gid = struct.unpack('>IH', d[q + 6 * k:q + 6 * k + 6])
+                if 0 < uid < 0x110000 and not 0xD800 <= uid <= 0xDFFF:
+                    out.append(uid)
+    except (OSError, struct.error, IndexError):
+        pass
+    _pseudo[font] = out
+    return out
+
+
 def gen_text(rng, rep, maxlen=24):
     n = rng.choice((0, 1, 1, 2, 3, 4, 5, 6, 8, 10, 12, 16, maxlen))
     out = []
@@ -71,6 +114,16 @@ def gen_text_seeded(rng, repo, font, maxlen=16):
     """a text near the ones the repository tests: a fonttest string or a window of a corpus line, with up to three edits
     (drop, duplicate, swap, replace / insert / append from the same alphabet)"""
     tests, lines, alpha = seeds(repo, font)
+    ps = pseudos(repo, font)
+    if ps and rng.random() < 0.15:
+        # characters that reach the font only through its pseudo-glyph map
+        base = [rng.choice(alpha) for _ in range(rng.randrange(1, 4))]
+        t = []
+        for b in base:
+            t.append(b)
+            for _ in range(rng.randrange(1, 3)):
+                t.append(rng.choice(ps))
+        return t[:maxlen + 8]
     r = rng.random()
     if tests and (r < 0.5 or not lines):
         t = list(rng.choice(tests))
